@@ -10,6 +10,7 @@ import (
 	"encoding/binary"
 	"errors"
 	"fmt"
+	"runtime/debug"
 	"sort"
 	"strings"
 	"sync"
@@ -103,28 +104,29 @@ const (
 const maxHosts = 9
 
 type cluster struct {
-	cfg    histCfg
-	net    *network
-	rec    *recorder
-	mu     sync.RWMutex
-	hosts  []*dragonboat.NodeHost // index 0..n-1 = replica 1..n; nil while down
-	nhcs   []config.NodeHostConfig
-	addrs  []string
-	stamp  uint64
-	nextID uint64
-	opsMu  sync.Mutex
-	ops    []*opRec
-	codes  map[string]uint64
-	notes  map[string]int
-	noteMu sync.Mutex
-	fss    []config.IFS
-	strict []*c01hooks.StrictFS // per host, nil unless cfg.powerLoss
-	rec2   *recorder            // the state machines of the second shard (cfg.twoShards)
-	role   []int                // guarded by mu
-	paused int32                // clients and faults pause (idle period of the quiesce dimension)
-	avoid  int32                // host index + 1 that admin requests do not go to (it is cut off), 0 = none
-	mon    []string             // gen-time monitor messages (guarded by noteMu)
-	qlog   []qentry             // entries returned by QueryRaftLog (guarded by noteMu)
+	cfg     histCfg
+	net     *network
+	rec     *recorder
+	mu      sync.RWMutex
+	hosts   []*dragonboat.NodeHost // index 0..n-1 = replica 1..n; nil while down
+	nhcs    []config.NodeHostConfig
+	addrs   []string
+	stamp   uint64
+	nextID  uint64
+	opsMu   sync.Mutex
+	ops     []*opRec
+	codes   map[string]uint64
+	notes   map[string]int
+	noteMu  sync.Mutex
+	fss     []config.IFS
+	strict  []*c01hooks.StrictFS // per host, nil unless cfg.powerLoss
+	rec2    *recorder            // the state machines of the second shard (cfg.twoShards)
+	closing sync.Map             // *NodeHost objects the harness has started to close
+	role    []int                // guarded by mu
+	paused  int32                // clients and faults pause (idle period of the quiesce dimension)
+	avoid   int32                // host index + 1 that admin requests do not go to (it is cut off), 0 = none
+	mon     []string             // gen-time monitor messages (guarded by noteMu)
+	qlog    []qentry             // entries returned by QueryRaftLog (guarded by noteMu)
 }
 
 // qentry is one committed entry returned by QueryRaftLog.
@@ -161,13 +163,40 @@ func subRand(seed uint64, salt uint64) *vh.Rand {
 // clientPanic: a call of the public API panicked on the caller's goroutine. Like a
 // panic on a goroutine of the library it is judged, not skipped (unless it is a
 // documented operator error, knownPanic).
-func (c *cluster) clientPanic(p interface{}) {
+func (c *cluster) clientPanic(p interface{}, nhs ...*dragonboat.NodeHost) {
 	msg := fmt.Sprint(p)
 	if knownPanic.MatchString(msg) {
 		c.note("client_panic_known")
 		return
 	}
-	c.violation("a call of the NodeHost API panicked on the client's goroutine: %s", msg)
+	// where: the frames of the library below the panic machinery
+	var where []string
+	for _, l := range strings.Split(string(debug.Stack()), "\n") {
+		l = strings.TrimSpace(l)
+		if strings.HasPrefix(l, "github.com/lni/dragonboat/v4") || strings.HasPrefix(l, "main.(*cluster).do") {
+			if i := strings.LastIndex(l, "("); i > 0 {
+				l = l[:i]
+			}
+			where = append(where, strings.TrimPrefix(l, "github.com/lni/dragonboat/v4"))
+			if len(where) == 4 {
+				break
+			}
+		}
+	}
+	// Not a verdict, narrowly: the harness itself had started to close this very
+	// NodeHost object before the call returned (restart / power-loss nemesis; the
+	// clients deliberately keep using a host while it goes down). NodeHost.Close
+	// sets nh.engine to nil while NodeHost.propose / readIndex, past their
+	// "closed" test, still use it: calling the API concurrently with Close is an
+	// operator error outside the properties (DESIGN.md observation). The
+	// operation is recorded as one without an answer.
+	for _, nh := range nhs {
+		if _, closing := c.closing.Load(nh); closing && strings.Contains(msg, "nil pointer dereference") {
+			c.note("client_panic_on_a_host_being_closed")
+			return
+		}
+	}
+	c.violation("a call of the NodeHost API panicked on the client's goroutine: %s [%s]", msg, strings.Join(where, " <- "))
 }
 
 func (c *cluster) note(k string) {
@@ -270,7 +299,7 @@ func (c *cluster) shard2Loop(stop <-chan struct{}, wg *sync.WaitGroup) {
 		func() {
 			defer func() {
 				if p := recover(); p != nil {
-					c.clientPanic(p)
+					c.clientPanic(p, nh)
 				}
 			}()
 			ctx, cancel := context.WithTimeout(context.Background(), 200*time.Millisecond)
@@ -828,7 +857,7 @@ func (c *cluster) clientLoop(id int, stop <-chan struct{}, wg *sync.WaitGroup) {
 			// a NodeHost being closed under a client must not panic inside the library
 			defer func() {
 				if p := recover(); p != nil {
-					c.clientPanic(p)
+					c.clientPanic(p, nh)
 					cs = nil
 				}
 			}()
@@ -908,7 +937,7 @@ func (c *cluster) burstLoop(stop <-chan struct{}, wg *sync.WaitGroup) {
 				defer bw.Done()
 				defer func() {
 					if p := recover(); p != nil {
-						c.clientPanic(p)
+						c.clientPanic(p, wnh, rnh)
 					}
 				}()
 				for k := 0; k < 8; k++ {
@@ -949,7 +978,7 @@ func (c *cluster) restartHost(i int, r *vh.Rand) {
 			defer bw.Done()
 			defer func() {
 				if p := recover(); p != nil {
-					c.clientPanic(p)
+					c.clientPanic(p, nh)
 				}
 			}()
 			if write {
@@ -961,6 +990,7 @@ func (c *cluster) restartHost(i int, r *vh.Rand) {
 	}
 	defer bw.Wait()
 	time.Sleep(time.Duration(r.Intn(1500)) * time.Microsecond)
+	c.closing.Store(nh, true)
 	if r.Bool() {
 		_ = nh.StopShard(shardID)
 		time.Sleep(time.Duration(r.Intn(20)) * time.Millisecond)
@@ -1015,6 +1045,7 @@ func (c *cluster) powerLoss(hosts []int, r *vh.Rand) {
 		c.strict[i].Freeze()
 	}
 	for k, i := range live {
+		c.closing.Store(nhs[k], true)
 		nhs[k].Close()
 		c.set(i, nil)
 		c.strict[i].Crash()
